@@ -49,9 +49,11 @@ fn c13_cmp_datetime() {
     let k: u8 = kani::any(); kani::assume(k < 6);
     let op = match k { 0 => Op::Eq, 1 => Op::Ne, 2 => Op::Lt, 3 => Op::Gt, 4 => Op::Lte, _ => Op::Gte };
     let t: i64 = kani::any(); let a: i64 = kani::any(); let b: i64 = kani::any();
-    kani::assume(a <= b);
-    kani::cover!(true);
-    assert!(Some(frag_cmp_datetime(&op, &FV::date(t, t), &FV::date(a, b))) == spec_rel_date(&op, t, a, b), "OBL C13.cmp.datetime");
+    let ns: u32 = kani::any();
+    kani::assume(a <= b && ns < 1_000_000_000);
+    kani::cover!(ns > 0);
+    // the entry time may have a sub-second part; the comparison is on whole seconds (the property's time grid)
+    assert!(Some(frag_cmp_datetime(&op, &FV::time(t, ns), &FV::date(a, b))) == spec_rel_date(&op, t, a, b), "OBL C13.cmp.datetime");
 }
 #[kani::proof]
 fn c13_trichotomy() {
